@@ -144,7 +144,7 @@ class SuspenderBase(metaclass=ABCMeta):
                         self._ev.wait,
                         pre_plan=self._pre_plan,
                         post_plan=self._post_plan,
-                        justification=self._get_justification(),
+                        justification=self.__justification(),
                     )
                     if self.RE.state.is_running:
                         loop.call_soon_threadsafe(cb)
@@ -207,7 +207,18 @@ class SuspenderBase(metaclass=ABCMeta):
         if not self.tripped:
             return [], ""
         with self._lock:
-            return [self.__make_event().wait], self._get_justification()
+            return [self.__make_event().wait], self.__justification()
+
+    def __justification(self):
+        """The message for the user; never a reason not to suspend.
+
+        The subclasses read the signal again for their message.  If that read fails the
+        suspender is tripped all the same: the request to suspend must still be made.
+        """
+        try:
+            return self._get_justification()
+        except Exception:
+            return f"Suspender {self!r} is tripped (the signal could not be read for details)"
 
     @property
     def tripped(self):
